@@ -218,6 +218,27 @@ func CheckC03(c *Ctx) {
 				w.CountN("objects-with-at-most-k-optional-metrics-defined", int64(n))
 			})
 		}
+		// (2c) COMPLETE over WHICH Modified metrics are defined: each of the 256 subsets x seeded random
+		// assignments (Modified metrics outside the subset forced to X, inside forced to a defined value)
+		perSub := c.Pick(1500, 30000)
+		c.Parallel("modified-subsets-"+v.Name, 256*perSub, 1<<12, func(w *Worker, i int) {
+			mask := i % 256
+			a := gen.RandomAssign(w.R, v)
+			for k := 0; k < 8; k++ {
+				mi := 14 + k
+				if mask>>k&1 == 1 {
+					a[mi] = uint8(1 + w.R.Intn(len(v.Metrics[mi].Values)-1))
+				} else {
+					a[mi] = 0
+				}
+			}
+			o, steps := buildOrViolate(c, w, api, a, styleFor(i))
+			if o == nil {
+				return
+			}
+			v3Check(c, w, api, m, o, a, steps, classes)
+			w.Count("objects-by-modified-subset")
+		})
 		// (3) random overlays: a random subset of the 8 Modified metrics defined
 		c.Parallel("overlay-"+v.Name, c.Pick(3_000_000, 200_000_000), 1<<13, func(w *Worker, i int) {
 			a := gen.RandomAssign(w.R, v)
@@ -421,6 +442,49 @@ func v4Realise(r *gen.Rand, e spec.V4Eff, mode int) spec.Assign {
 	return a
 }
 
+// v4RealiseSubset realises class e with EXACTLY the Modified metrics in mask (bit k = k-th overridable
+// metric AV AC AT PR UI VC VI VA SC SI SA) carrying the effective value and a random decoy base underneath;
+// the others through the base metric. SI/SA = S needs the Modified metric: ok=false if the mask excludes it.
+func v4RealiseSubset(r *gen.Rand, e spec.V4Eff, mask int) (spec.Assign, bool) {
+	v := spec.Versions[spec.V40]
+	a := v.ZeroAssign()
+	lv := [11]uint8{e.AV, e.AC, e.AT, e.PR, e.UI, e.VC, e.VI, e.VA, e.SC, e.SI, e.SA}
+	nvals := [11]int{4, 2, 2, 3, 3, 3, 3, 3, 3, 3, 3}
+	for k := 0; k < 11; k++ {
+		via := mask>>k&1 == 1
+		base, mod := k, 15+k
+		if k >= 9 { // SI, SA: levels S,H,L,N
+			if via {
+				a[mod] = lv[k] + 1
+				a[base] = uint8(r.Intn(3))
+			} else {
+				if lv[k] == 0 {
+					return nil, false
+				}
+				a[base] = lv[k] - 1
+			}
+			continue
+		}
+		if via {
+			a[mod] = lv[k] + 1
+			a[base] = uint8(r.Intn(nvals[k]))
+		} else {
+			a[base] = lv[k]
+		}
+	}
+	a[11] = e.E + 1
+	if e.E == 0 && r.Bool() {
+		a[11] = 0
+	}
+	for k, lvl := range [3]uint8{e.CR, e.IR, e.AR} {
+		a[12+k] = lvl + 1
+		if lvl == 0 && r.Bool() {
+			a[12+k] = 0
+		}
+	}
+	return a, true
+}
+
 type v4stats struct {
 	mv    *bitset
 	lower [6]atomic.Int64
@@ -528,6 +592,19 @@ func CheckC04(c *Ctx) {
 			w.CountN("objects-with-at-most-k-optional-metrics-defined", int64(n))
 		})
 	}
+	// COMPLETE over WHICH Modified metrics are defined: each of the 2,048 subsets of the 11 overridable
+	// metrics x seeded random effective classes (the rest of the object carried by the base metrics)
+	perSubset := c.Pick(300, 6000)
+	c.Parallel("modified-subsets", 2048*perSubset, 1<<12, func(w *Worker, i int) {
+		mask := i % 2048
+		e := spec.V4ClassFromIndex(w.R.Intn(spec.V4ClassCount))
+		a, ok := v4RealiseSubset(w.R, e, mask)
+		if !ok {
+			return
+		}
+		v4Check(c, w, api, a, styleFor(i), stats, false)
+		w.Count("objects-by-modified-subset")
+	})
 	c.Parallel("raw-random", c.Pick(3_000_000, 150_000_000), 1<<13, func(w *Worker, i int) {
 		a := gen.MixedAssign(w.R, api.Ver)
 		v4Check(c, w, api, a, w.R.Intn(NStyles), stats, i%300007 == 0)
